@@ -51,4 +51,5 @@ Fixpoint nodup_events (l : list (nat * import)) : bool :=
   end.
 Definition ustage_of (bi : list name) (ns : list (list name)) (p : program) : nat :=
   if u1_block p && nodup_events (imp_events (bsrcs_block false p)) then 1
-  else if u2_block p && imports_once bi ns p && nodup_events (imp_events (bsrcs_block false p)) then 2 else 0.
+  else if u2_block p && imports_once bi ns p && nodup_events (imp_events (bsrcs_block false p)) then 2
+  else if u3_block p && imports_once bi ns p && nodup_events (imp_events (bsrcs_block false p)) then 3 else 0.
